@@ -263,6 +263,12 @@ theorem mutRun_spec (k : MutK) (o : Obj) (e : EP) (m : ResM (Char × Option Obj 
     cases o <;> simp only [mutRun, Option.some.injEq, reduceCtorEq] at hm
     subst hm; rename_i t
     exact mut_val TlsO.foot .tls (fun _ => rfl) (fun _ => rfl) t _ (tlsGet_spec t) e (fun _ => 'S')
+  | loaderSym =>
+    cases o <;> simp only [mutRun, Option.some.injEq, reduceCtorEq] at hm
+    subst hm; rename_i l
+    intro f s fr h
+    simp [loaderSym, optFoot, optOwned, Obj.owned] at h ⊢
+    exact ⟨h, NamesOk.of_eq [] rfl⟩
   | mmapFree =>
     cases o <;> simp only [mutRun, Option.some.injEq, reduceCtorEq] at hm
     subst hm; rename_i i len
